@@ -195,6 +195,50 @@ def valid_piece(rng, cfg, stratum="A", nseg=(1, 3), nbars=(1, 3), max_notes=7, o
     return None
 
 
+def twin_rest_piece(cfg, i):
+    """Two signature sections of different bar length; in each, a note ends with the SAME amount of bar remaining and is followed by a
+    silence of the SAME length that runs over at least one whole bar -- equal rests, equal position relative to the bar line, different
+    bars.  Returns a piece (with its analysis) or None when the configuration cannot carry it."""
+    import random
+    r = random.Random(f"twin-rest:{i}")
+    lo_ts, hi_ts = cfg.get("tsr") or (2, 16)
+    pairs = [((4, 4), (3, 4)), ((3, 4), (4, 4)), ((6, 8), (4, 4)), ((2, 4), (3, 4)), ((4, 4), (5, 4)), ((3, 4), (2, 4)), ((4, 4), (6, 8))]
+    pairs = [pq for pq in pairs if all(lo_ts <= 8 * sg[0] // sg[1] <= hi_ts for sg in pq)]
+    if not pairs:
+        return None
+    sa, sb = pairs[(i // 13) % len(pairs)]
+    A, B = 96 * sa[0] // sa[1], 96 * sb[0] // sb[1]
+    values = values_of(cfg)
+    v = min(values, key=lambda x: (abs(x - 12), x))
+    rem = r.choice([24, 48, 12, 36])
+    if rem + v > min(A, B):
+        rem, v = 24, min(values)
+        if rem + v > min(A, B):
+            return None
+    R = rem + min(A, B) * r.choice([1, 1, 2]) + r.choice([0, 24, 12])
+    nb = 4
+    SA = nb * A
+    total = SA + nb * B
+    lo, hi = cfg["pitch"]
+    p1, p2 = lo, min(hi, lo + 1)
+    notes = [[0, p1, A - rem - v, v, 64], [0, p2, A - rem + R, v, 65],
+             [0, p1, SA + B - rem - v, v, 66], [0, p2, SA + B - rem + R, v, 67]]
+    if notes[1][2] + v > SA or notes[3][2] + v > total:
+        return None
+    bars = [(k * A, A, sa) for k in range(nb)] + [(SA + k * B, B, sb) for k in range(nb)]
+    ts_ev = [(0, sa[0], sa[1]), (SA, sb[0], sb[1])]
+    tracks = []
+    for t in range(cfg["tracks"]):
+        tracks.append({"notes": [list(n) for n in notes] if t == (i // 7) % cfg["tracks"] else [],
+                       "extra": [["ts", tt, n, d] for (tt, n, d) in ts_ev] if t == 0 else [], "start": r.choice(["abs", "rel", "both"]), "pad": total})
+    piece = {"tracks": tracks, "ts": ts_ev, "bars": bars, "total": total, "meta": 0, "twin_rest": [rem, R, A, B]}
+    info = analyse(piece, cfg)
+    if not info["valid"] or not info["greedy_safe"] or not info["duration_ok"] or info["clock_short"]:
+        return None
+    piece["info"] = info
+    return piece
+
+
 def analyse(piece, cfg):
     """oracle-side facts about a piece: validity (coin-expressible rest segments), greedy-safety, end closure"""
     steps = steps_of(cfg)
